@@ -594,6 +594,19 @@ def _expected(nc, fault):
             special[top_brain] = ("C15.detect.clear_between_dead_and_outside", {2, 3})
     if noisy is not None:
         allowed[noisy] = {2}
+    # the same root cause in general form: the "outside" feature of channel c is the MEDIAN of the high-pass similarity over the
+    # 11 channels around c, so a clear channel next to the block is labelled 3 as soon as 6 of those 11 lack the common signal
+    # (block channels, a silent channel, a channel replaced by noise) - e.g. block 248..275, 247 silent, 241 replaced by noise:
+    # the window 241..251 of channel 246 holds 6 of them
+    if b >= 1:
+        lacking = set(range(nc - b, nc))
+        if dead is not None:
+            lacking.add(dead)
+        if noisy is not None and fault.get("noisy_mode") == "replace":
+            lacking.add(noisy)
+        for c in range(max(0, nc - b - 12), nc - b):
+            if c not in lacking and c not in special and sum(1 for k in range(c - 5, c + 6) if k in lacking) >= 6:
+                special[c] = ("C15.detect.clear_between_dead_and_outside", {2, 3})
     return allowed, special
 
 
